@@ -228,6 +228,32 @@ func (fc *FnCtx) applyContract(con *Contract, names []string, args []Val, sig *t
 		fc.oblige("pre", con.Name+"."+cl.Label, f, pos, cl)
 	}
 	fc.havocCall(&fc.cur, mods)
+	// `modifies H@p` of a module leaf function whose stores into H all go through p (objectConfined): every other
+	// object's cell of H keeps its value
+	if con.Kind == "func" {
+		callee := fc.e.funcs[con.Name]
+		for _, m := range con.Modifies {
+			i := strings.Index(m, "@")
+			if i < 0 || !fc.e.objectConfined(callee, m[:i], m[i+1:]) {
+				continue
+			}
+			pvl, ok := argLookup(m[i+1:])
+			if !ok || pvl.K != KPtr {
+				continue
+			}
+			h := m[:i]
+			sort, known := fc.heapSort[h]
+			if !known || !strings.HasPrefix(sort, "(Array Int ") {
+				continue
+			}
+			oldT := fc.getHeapTerm(&pre, h, sort)
+			newT := fc.getHeapTerm(&fc.cur, h, sort)
+			if oldT == newT {
+				continue
+			}
+			fc.heapSet(&fc.cur, h, sort, fmt.Sprintf("(store %s %s (select %s %s))", oldT, pvl.C[0], newT, pvl.C[0]))
+		}
+	}
 	rv := freshRes()
 	if con.Fresh && len(rv.C) > 0 {
 		fc.assumeFreshRefs(rv)
@@ -290,6 +316,10 @@ func (fc *FnCtx) doBuiltin(res ssa.Value, b *ssa.Builtin, c *ssa.CallCommon, in 
 		case KStr, KSlice:
 			setRes(mkVal(res.Type(), []string{v.C[2]}))
 		default:
+			if _, isMap := c.Args[0].Type().Underlying().(*types.Map); isMap {
+				setRes(mkVal(res.Type(), []string{fc.mapLen(&fc.cur, c.Args[0].Type(), v.S())}))
+				break
+			}
 			r := fc.freshVal(res.Name(), res.Type())
 			fc.assert(fmt.Sprintf("(and (<= 0 %s) (<= %s %s))", r.S(), r.S(), maxLen))
 			if at, ok := derefType(c.Args[0].Type()).Underlying().(*types.Array); ok {
@@ -323,7 +353,16 @@ func (fc *FnCtx) doBuiltin(res ssa.Value, b *ssa.Builtin, c *ssa.CallCommon, in 
 		setRes(mkVal(res.Type(), []string{acc}))
 	case "delete":
 		fc.mapDelete(c)
-	case "clear", "print", "println", "close":
+	case "clear":
+		switch u := c.Args[0].Type().Underlying().(type) {
+		case *types.Map:
+			fc.mapClear(c)
+		case *types.Slice:
+			hs := map[string]bool{}
+			addTypeHeaps("A."+typeName(u.Elem()), u.Elem(), hs)
+			fc.havocSet(&fc.cur, hs) // the elements become zero; not modelled more precisely
+		}
+	case "print", "println", "close":
 	case "panic":
 		if fc.con == nil || !fc.con.MayPanic {
 			fc.oblige("unreach", "panic", "false", pos, nil)
